@@ -38,7 +38,7 @@ def plain(t):
 # C01: symmetric 8-bit quantization is a nearest-grid-point projection
 # --------------------------------------------------------------------------------------------------
 
-def check_symmetric(x, storage, scale, q, requant=None, stats=None, idem=None):
+def check_symmetric(x, storage, scale, q, requant=None, stats=None, idem=None, judge_mask=None):
     """x: plain source tensor (working dtype wd); scale: plain tensor broadcastable to x, dtype wd (the grid);
     q: the quantized result. requant: callable(dq) -> quantized tensor with the same configuration (idempotence).
     """
@@ -69,6 +69,8 @@ def check_symmetric(x, storage, scale, q, requant=None, stats=None, idem=None):
         C = torch.where(bad, torch.zeros_like(C), C)
     mind, lo, hi = num.nearest(X, S, table)
     judged = ((S * lo.abs()) <= fm) & ((S * hi.abs()) <= fm)
+    if judge_mask is not None:
+        judged = judged & judge_mask
     if stats is not None:
         stats["judged"] = int(judged.sum())
         stats["elements"] = int(judged.numel())
